@@ -2,6 +2,7 @@
 import os
 import gen822
 from protocol import Exc
+import probe
 from debian_inspector import deb822
 
 ID = 'C05'
@@ -36,9 +37,17 @@ DATA = os.path.join(os.environ.get('VERIF_REPO', '/repo'), 'tests', 'data')
 
 
 def observe(op, t):
+    def scramble(groups):
+        for g in groups:
+            for f in g:
+                for l in f.lines:
+                    probe.scramble_attrs(l, number=-1, value='zz-scrambled')
+                del f.lines[:]
+                probe.scramble_attrs(f, name='zz-scrambled')
+            del g[:]
     try:
-        groups = list(deb822.get_paragraphs_as_field_groups(t))
-        return [[[f.name, [[l.number, l.value] for l in f.lines]] for f in g] for g in groups]
+        return probe.twice(lambda: list(deb822.get_paragraphs_as_field_groups(t)),
+                           lambda groups: [[[f.name, [[l.number, l.value] for l in f.lines]] for f in g] for g in groups], scramble)
     except Exception as e:
         return Exc(type(e).__name__)
 
